@@ -9,6 +9,8 @@ refactorings then do not change the verdict.  Nothing here runs griddle code.
 View policies (see `VIEWS`):
   leaf     private free functions / associated functions without a split-table receiver (pure fragments)
   private  every module-private function (also private methods of the split table), callers first
+  module   additionally every function that is not exported and only called from its own source module, whatever its visibility
+           (`pub(crate)` helpers in a private submodule)
 A function is never inlined when it is recursive, not private, a closure, or creates closures while it has
 more than one call site (the closure body would then have two creation sites and capture resolution would be ambiguous).
 """
@@ -40,6 +42,17 @@ def is_private(raw):
         return False
     vm = _vis_module(raw.get("vis", "pub"))
     return bool(vm) and "::" in vm
+
+
+def module_of(raw):
+    """source module of a body, from its definition path (griddle::raw::{impl#3}::carry -> griddle::raw)"""
+    parts = raw["dpath"].split("::")
+    out = []
+    for x in parts[:-1]:
+        if x.startswith("{"):
+            break
+        out.append(x)
+    return "::".join(out)
 
 
 def _map_place(pl, lo):
@@ -236,13 +249,28 @@ def _creates_closure(raw):
     return False
 
 
-def build_view(facts, policy, roles=None, max_rounds=6):
+def build_view(facts, policy, roles=None, max_rounds=6, protect=()):
     """Return (Facts of the view, list of (caller, callee) inlined) or (None, []) if nothing was inlined."""
     d = dict(facts.raw)
     raws = copy.deepcopy(facts.raw["bodies"])
     d["bodies"] = raws
     T = facts.types
     fnvals = _fn_values(facts)
+    # functions used as values, per module of the using body (a function handed out of its module as a value is part of its interface)
+    fnvals_outside = defaultdict(set)
+    for r in facts.raw["bodies"]:
+        for blk in r["blocks"]:
+            ops = list(blk["term"].get("args", [])) if blk["term"]["k"] == "call" else []
+            for st in blk["stmts"]:
+                if st["k"] == "assign":
+                    rv = st["rv"]
+                    ops += [x for x in (rv.get("op"), rv.get("a"), rv.get("b")) if isinstance(x, dict)] + list(rv.get("ops", []))
+            for o in ops:
+                if isinstance(o, dict) and o.get("k") == "const" and o.get("fn"):
+                    for r2 in facts.raw["bodies"]:
+                        if strip_generics(r2["path"]) == strip_generics(o["fn"]) and module_of(r2) != module_of(r) \
+                                and not module_of(r).startswith(module_of(r2) + "::"):
+                            fnvals_outside[module_of(r2)].add(strip_generics(r2["path"]))
 
     def has_split_receiver(r):
         if roles is None or r["arg_count"] < 1:
@@ -273,9 +301,28 @@ def build_view(facts, policy, roles=None, max_rounds=6):
             for _, c in es:
                 sites[c] += 1
 
+        callers_of = defaultdict(set)
+        for p, es in edges.items():
+            for _, c in es:
+                callers_of[c].add(p)
+
+        def module_internal(r):
+            """not exported, and every caller lives in the same source module (a helper of that module, whatever its visibility)"""
+            if r["kind"] not in ("Fn", "AssocFn") or r.get("exported") or r.get("vis") == "pub":
+                return False
+            m = module_of(r)
+            cs = callers_of.get(r["path"], set())
+            return bool(cs) and all(module_of(by_path[p]) == m or module_of(by_path[p]).startswith(m + "::") for p in cs) \
+                and strip_generics(r["path"]) not in fnvals_outside.get(m, set())
+
         def eligible(c):
             r = by_path[c]
-            if not is_private(r):
+            if c in protect:
+                return False
+            if policy == "module":
+                if not (is_private(r) or module_internal(r)):
+                    return False
+            elif not is_private(r):
                 return False
             if reaches(c, c):
                 return False
@@ -318,4 +365,4 @@ def build_view(facts, policy, roles=None, max_rounds=6):
     return Facts.from_raw(d, facts.path + "#" + policy), done
 
 
-VIEWS = ("leaf", "private")
+VIEWS = ("leaf", "private", "module")
